@@ -1,7 +1,7 @@
 (* area asn1: dispatch table of model units for the correspondence check (val -> val). *)
 From Coq Require Import String.
 From V Require Import Prelude.Base Prelude.PyInt Prelude.PySlice Prelude.PyStr Prelude.Val gen.K_asn1 gen.C_asn1.
-From V Require Import Model.Asn1 Spec.DerSpec.
+From V Require Import Model.Asn1 Spec.DerSpec Model.Types Model.KeyId Model.Pkcs7 Model.Blob.
 
 Definition tag_of_val (v : val) : option (option tag) :=
   match v with
@@ -212,10 +212,98 @@ Definition u_strict (a : val) : val :=
   | _ => bad
   end.
 
+(* ---- C06 units *)
+Definition val_of_kid (k : key_identifier) : val :=
+  VL [VI (kid_version k); VI (kid_flags k); VI (kid_l0 k); VI (kid_l1 k); VI (kid_l2 k); VB (kid_rkid k);
+      VB (kid_key_info k); VS (kid_domain k); VS (kid_forest k)].
+Definition kid_of_val (v : val) : option key_identifier :=
+  match v with
+  | VL [VI a; VI b; VI c; VI d; VI e; VB r; VB ki; VS dn; VS fn] =>
+    Some {| kid_version := a; kid_flags := b; kid_l0 := c; kid_l1 := d; kid_l2 := e; kid_rkid := r;
+            kid_key_info := ki; kid_domain := dn; kid_forest := fn |}
+  | _ => None
+  end.
+Definition obytes_of_val (v : val) : option (option bytes) :=
+  match v with VN => Some None | VB b => Some (Some b) | _ => None end.
+Definition val_of_blob (b : blob) : val :=
+  VL [val_of_kid (b_key_identifier b); VS (b_sid b); VB (b_enc_cek b); vzs (b_enc_cek_algorithm b);
+      vopt VB (b_enc_cek_parameters b); VB (b_enc_content b); vzs (b_enc_content_algorithm b);
+      vopt VB (b_enc_content_parameters b)].
+Definition blob_of_vals (l : list val) : option blob :=
+  match l with
+  | [kv; VS sid; VB cek; VL a1; p1; VB content; VL a2; p2] =>
+    match kid_of_val kv, zs_of_vals a1, obytes_of_val p1, zs_of_vals a2, obytes_of_val p2 with
+    | Some k, Some o1, Some q1, Some o2, Some q2 =>
+      Some {| b_key_identifier := k; b_sid := sid; b_enc_cek := cek; b_enc_cek_algorithm := o1; b_enc_cek_parameters := q1;
+              b_enc_content := content; b_enc_content_algorithm := o2; b_enc_content_parameters := q2 |}
+    | _, _, _, _, _ => None
+    end
+  | _ => None
+  end.
+Definition u_blob_pack_unpack (a : val) : val :=
+  match a with
+  | VL [kv; s; c; a1; p1; ct; a2; p2; VI env] =>
+    match blob_of_vals [kv; s; c; a1; p1; ct; a2; p2] with
+    | Some b =>
+      match blob_pack b (negb (env =? 0)) with
+      | Ok d => VL [VB d; vres val_of_blob (blob_unpack d)]
+      | Raise e => VL [VE e; VN]
+      end
+    | None => bad
+    end
+  | _ => bad
+  end.
+Definition u_blob_unpack (a : val) : val :=
+  match a with
+  | VB d =>
+    match blob_unpack d with
+    | Ok b => VL [val_of_blob b; vres VB (blob_pack b true); vres VB (blob_pack b false)]
+    | Raise e => VE e
+    end
+  | _ => bad
+  end.
+Definition u_blob_emitted (a : val) : val :=
+  match a with
+  | VL [kv; VS sid; VB iv; VB cek; VB content] =>
+    match kid_of_val kv with
+    | Some k => vres VB (let* b := encrypt_blob_fields k sid iv cek content in blob_pack b true)
+    | None => bad
+    end
+  | _ => bad
+  end.
+(* pkcs7.kekid : [key_identifier, date | None, [oid, attr | None] | None] -> [bytes, fields read back] *)
+Definition val_of_kekid (k : kek_identifier) : val :=
+  VL [VB (kekid_key_identifier k); vopt VS (kekid_date k);
+      vopt (fun o => VL [vzs (oka_id o); vopt VB (oka_attr o)]) (kekid_other k)].
+Definition u_kekid (a : val) : val :=
+  match a with
+  | VL [VB ki; d; o] =>
+    let date := match d with VS s => Some (Some s) | VN => Some None | _ => None end in
+    let other := match o with
+                 | VN => Some None
+                 | VL [VL arcs; at_] =>
+                   match zs_of_vals arcs, obytes_of_val at_ with
+                   | Some zs, Some q => Some (Some {| oka_id := zs; oka_attr := q |})
+                   | _, _ => None
+                   end
+                 | _ => None
+                 end in
+    match date, other with
+    | Some dt, Some ot =>
+      match (let* t := KEKIdentifier_pack {| kekid_key_identifier := ki; kekid_date := dt; kekid_other := ot |} in encode t) with
+      | Ok bs => VL [VB bs; vres (fun p : kek_identifier * bytes => VL [val_of_kekid (fst p); VB (snd p)]) (KEKIdentifier_unpack bs)]
+      | Raise e => VL [VE e; VN]
+      end
+    | _, _ => bad
+    end
+  | _ => bad
+  end.
+
 Open Scope string_scope.
 Definition units : list (string * (val -> val)) :=
   [ ("echo", fun v => v); ("asn1.int", u_int); ("asn1.int_range", u_int_range); ("asn1.int_content", u_int_content);
-    ("asn1.tlv", u_tlv); ("asn1.oid", u_oid); ("asn1.tree", u_tree); ("asn1.walk", u_walk); ("asn1.strict", u_strict) ].
+    ("asn1.tlv", u_tlv); ("asn1.oid", u_oid); ("asn1.tree", u_tree); ("asn1.walk", u_walk); ("asn1.strict", u_strict);
+    ("blob.pack_unpack", u_blob_pack_unpack); ("blob.unpack", u_blob_unpack); ("blob.emitted", u_blob_emitted); ("pkcs7.kekid", u_kekid) ].
 
 Fixpoint lookup (n : string) (l : list (string * (val -> val))) : option (val -> val) :=
   match l with
